@@ -223,14 +223,15 @@ Proof.
 Qed.
 
 Lemma FdX_user : forall s s', FdX s ->
-  (forall y, ~ inr16 y -> fdt s' y = fdt s y) ->
+  (forall y, ~ inr16 y -> hnd_same (fdt s' y) (fdt s y) /\ registered (fdt s' y) = registered (fdt s y)) ->
   (forall y, inr16 y -> hand_ok (fdt s' y) (fun h => 0 <= h < 16)) ->
   rw_reg s' = rw_reg s -> use_raw s' = use_raw s -> ev_count s' = ev_count s -> ev_reg s' = ev_reg s ->
   FdX s'.
 Proof.
   intros s s' [X1 X2 X3 X4 X5] O U RW UR EC ER. constructor.
-  - intros j Jr. rewrite O by (unfold inr16; lia). rewrite RW. auto.
-  - intros k K. rewrite O by (unfold inr16; lia). auto.
+  - intros j Jr. destruct (O (16 + j)) as [_ E]; [unfold inr16; lia|]. rewrite E, RW. auto.
+  - intros k K. destruct (O k) as [(H1 & H2 & H3) _]; [unfold inr16; lia|].
+    destruct (X2 k K) as (P1 & P2 & P3). unfold hand_ok. rewrite H1, H2, H3. auto.
   - intros k K. apply U. exact K.
   - rewrite RW, UR, EC. assumption.
   - rewrite EC, ER. assumption.
@@ -299,7 +300,7 @@ Proof.
   - apply FdI_putfd_noref; [apply FdI_emit; apply (j_fd _ _ Jh)|].
     apply (FdI_noref ex i); [apply FdI_emit; apply (j_fd _ _ Jh)|unfold inr16 in I; lia|exact RG].
   - apply (FdX_user s _ (j_fx _ _ Jh)); try reflexivity.
-    + intros y Y. unfold s'. rewrite fdt_putfd. destruct (Z.eqb_spec y i) as [->|N]; [contradiction|reflexivity].
+    + intros y Y. unfold s'. rewrite fdt_putfd. destruct (Z.eqb_spec y i) as [->|N]; [contradiction|repeat split].
     + intros y Y. unfold s'. rewrite fdt_putfd. destruct (Z.eqb_spec y i) as [->|N].
       * repeat split; discriminate.
       * apply (fx_userh _ (j_fx _ _ Jh)). exact Y.
@@ -844,10 +845,418 @@ Proof.
   destruct (fd_register_try ex i) as [r failed]. cbn [fst snd] in Q.
   destruct r as [s1|s1]; cbn [FdRes Post bind] in *; [|eapply HaltOf_good; eassumption].
   destruct Q as (T & R & FI).
-  set (s' := emit s1 _).
+  set (rc := if failed then -1 else 0).
+  set (s' := emit s1 (TRes 0 i rc)).
   assert (M1 : mst s1 = mst s).
   { rewrite (sm_mst _ _ (ft_same _ _ _ T)). apply mst_act. }
-  assert (T' : FdTop ex s' i).
-  { destruct T as [T1 T2 T3 T4 T5]. constructor; try assumption.
-    eapply Same_trans; [exact T1|]. constructor; try reflexivity.
-    (* the tracker state is not needed from this frame *) Abort.
+  assert (M : mst s' = mon_step (mst s) (TRes 0 i rc)) by (unfold s'; rewrite mst_emit, M1; reflexivity).
+  assert (MV : mst s' = if failed then mst s else m_fds (mst s) (upd (a_fd (mst s)) i true) (a_fh (mst s)) (a_ck (mst s))).
+  { rewrite M. unfold rc. destruct failed; reflexivity. }
+  apply (J_fd_upd b s s' Jh).
+  - apply SameSt_emit_r. apply (SameSt_emit_l s (TAct (AFdTry i))). apply Same_St. apply (ft_same _ _ _ T).
+  - apply (ft_handled _ _ _ T).
+  - rewrite MV. destruct failed; repeat split.
+  - rewrite M. apply good_TRes. apply (j_good _ _ Jh).
+  - change (AgFd s1 (mst s')). rewrite MV.
+    apply (AgFd_top s _ s1 i (mst s) _ (J_AgFd _ _ Jh) T).
+    + intros y N. destruct failed; [reflexivity|]. cbn [a_fd m_fds]. unfold upd.
+      destruct (Z.eqb_spec y i); [contradiction|reflexivity].
+    + rewrite R. destruct failed; cbn [negb].
+      * rewrite (proj1 (J_AgFd _ _ Jh i I)). exact RG.
+      * cbn [a_fd m_fds]. unfold upd. rewrite Z.eqb_refl. reflexivity.
+    + destruct failed; reflexivity.
+    + destruct failed; reflexivity.
+  - apply FdI_emit. assumption.
+  - apply FdX_emit. apply (FdX_top s _ s1 i (j_fx _ _ Jh) T I).
+Qed.
+
+Lemma act_AFdSetH : forall b s i band h, J b s -> inr16 i -> 0 <= band <= 2 ->
+  match h with Some x => 0 <= x < 16 | None => True end -> Post b s (do_action s (AFdSetH i band h)).
+Proof.
+  intros b s i band h Jh I B HW. unfold do_action. cbv zeta.
+  set (ex := emit s (TAct (AFdSetH i band h))).
+  assert (K : 0 <= i <= 32) by (unfold inr16 in I; lia).
+  pose proof (fd_set_handler_res ex i band h (FdI_emit _ _ _ (j_fd _ _ Jh)) K) as Q. cbv zeta in Q.
+  assert (GX : Goodm (mst ex)) by (unfold ex; rewrite mst_emit; apply good_TAct; apply (j_good _ _ Jh)).
+  destruct (fd_set_handler ex i band h) as [s'|s']; cbn [FdRes Post] in *; [|eapply HaltOf_good; eassumption].
+  destruct Q as (W & FI).
+  change (fdt ex i) with (fdt s i) in W.
+  set (f := fdt s i) in *.
+  set (f' := if band =? 0 then fd_with_handlers f h (h_out f) (h_err f)
+             else if band =? 1 then fd_with_handlers f (h_in f) h (h_err f)
+             else fd_with_handlers f (h_in f) (h_out f) h) in *.
+  assert (M : mst s' = mon_action (mst s) (AFdSetH i band h)).
+  { rewrite (sm_mst _ _ (iw_same _ _ W)). apply mst_act. }
+  assert (FD : forall y, fkeep (fdt s' y) (if y =? i then f' else fdt s y)).
+  { intros y. pose proof (iw_fd _ _ W y) as Q. rewrite fdt_putfd in Q. exact Q. }
+  apply (J_fd_upd b s s' Jh).
+  - apply (SameSt_emit_l s (TAct (AFdSetH i band h))). apply Same_St.
+    eapply Same_trans; [|apply (iw_same _ _ W)]. constructor; reflexivity.
+  - left. apply (iw_handled _ _ W).
+  - rewrite M. repeat split.
+  - rewrite M. apply good_action. apply (j_good _ _ Jh).
+  - rewrite M. intros y Y. destruct (J_AgFd _ _ Jh y Y) as (A1 & A2 & A3 & A4 & A5).
+    destruct (FD y) as [(_ & H1 & H2 & H3 & H4) H5]. rewrite H1, H2, H3, H4, H5.
+    cbn [mon_action a_fd a_fh a_ck m_fds m_iter]. unfold upd2.
+    destruct (Z.eqb_spec y i) as [->|N]; cbn [andb].
+    + fold f in A1, A2, A3, A4, A5. unfold f'.
+      destruct (Z.eqb_spec band 0) as [->|B0]; [cbn; auto|].
+      destruct (Z.eqb_spec band 1) as [->|B1]; [cbn; auto|].
+      assert (band = 2) by lia. subst band. cbn. auto.
+    + auto.
+  - assumption.
+  - apply (FdX_user s s' (j_fx _ _ Jh)).
+    + intros y Y. destruct (FD y) as [HS RS]. destruct (Z.eqb_spec y i) as [->|N]; [contradiction|].
+      split; [apply hsame_hnd; assumption|assumption].
+    + intros y Y. destruct (FD y) as [(_ & H1 & H2 & H3 & _) _].
+      destruct (fx_userh _ (j_fx _ _ Jh) y Y) as (P1 & P2 & P3). fold f in P1, P2, P3.
+      unfold hand_ok. rewrite H1, H2, H3.
+      destruct (Z.eqb_spec y i) as [->|N]; [|auto]. fold f in P1, P2, P3. unfold f'.
+      destruct (band =? 0); [|destruct (band =? 1)]; cbn [h_in h_out h_err fd_with_handlers];
+        repeat split; auto; try (subst h; cbn in HW; lia);
+        try (match goal with E : h_in f = Some ?x |- _ => pose proof (P1 x E); lia end);
+        try (match goal with E : h_out f = Some ?x |- _ => pose proof (P2 x E); lia end);
+        try (match goal with E : h_err f = Some ?x |- _ => pose proof (P3 x E); lia end).
+    + apply (sm_rw _ _ (iw_same _ _ W)).
+    + apply (sm_ur _ _ (iw_same _ _ W)).
+    + apply (sm_evc _ _ (iw_same _ _ W)).
+    + apply (sm_evr _ _ (iw_same _ _ W)).
+Qed.
+
+(* ---------- raw events and events: the internal machinery ---------- *)
+Lemma cnt_gen_upd : forall (f : Z -> bool) j v n lo, lo <= j < lo + Z.of_nat n ->
+  Z.of_nat (length (filter (upd f j v) (zseq lo n))) =
+  Z.of_nat (length (filter f (zseq lo n))) + (if v then 1 else 0) - (if f j then 1 else 0).
+Proof.
+  intros f j v n. induction n as [|n IH]; intros lo R; [lia|].
+  cbn [zseq filter]. unfold upd at 1. destruct (Z.eqb_spec lo j) as [E|N].
+  - subst lo.
+    assert (Q : filter (upd f j v) (zseq (j + 1) n) = filter f (zseq (j + 1) n)).
+    { apply filter_ext_in. intros a H. apply In_zseq in H. unfold upd. destruct (Z.eqb_spec a j); [lia|reflexivity]. }
+    rewrite Q. destruct v, (f j); cbn [length]; lia.
+  - specialize (IH (lo + 1) ltac:(lia)). destruct (f lo); cbn [length]; lia.
+Qed.
+
+Lemma cnt_upd_true : forall f j, inr16 j -> f j = false -> cnt (upd f j true) = cnt f + 1.
+Proof. intros f j I E. unfold cnt. rewrite (cnt_gen_upd f j true 16 0) by (unfold inr16 in I; lia). rewrite E. lia. Qed.
+
+Lemma cnt_upd_false : forall f j, inr16 j -> f j = true -> cnt (upd f j false) = cnt f - 1.
+Proof. intros f j I E. unfold cnt. rewrite (cnt_gen_upd f j false 16 0) by (unfold inr16 in I; lia). rewrite E. lia. Qed.
+
+Lemma cnt_nonneg : forall f, 0 <= cnt f.
+Proof. intros. unfold cnt. lia. Qed.
+
+Lemma cnt_pos : forall f j, inr16 j -> f j = true -> 1 <= cnt f.
+Proof.
+  intros f j I E. pose proof (cnt_upd_false f j I E). pose proof (cnt_nonneg (upd f j false)). lia.
+Qed.
+
+Definition FdXa (s : core) : Prop :=
+  (forall j, 0 <= j <= 16 -> registered (fdt s (16 + j)) = true -> rw_reg s j = true) /\
+  (forall k, 16 <= k <= 32 -> hand_ok (fdt s k) (fun h => h = 1000 + (k - 16))) /\
+  (forall k, 0 <= k < 16 -> hand_ok (fdt s k) (fun h => 0 <= h < 16)).
+
+Lemma FdX_split : forall s, FdX s <->
+  FdXa s /\ (rw_reg s 16 = true -> use_raw s = true /\ ev_count s <> 0) /\ ev_count s = cnt (ev_reg s).
+Proof.
+  intros s. split.
+  - intros [X1 X2 X3 X4 X5]. split; [split; [exact X1|split; [exact X2|exact X3]]|]. split; [exact X4|exact X5].
+  - intros ((X1 & X2 & X3) & X4 & X5). constructor; assumption.
+Qed.
+
+(* a step of the internal machinery: nothing the user objects or the tracker can see changes *)
+Record RawStep (s s' : core) : Prop := {
+  rs_heap : heap s' = heap s;
+  rs_time : time s' = time s;
+  rs_tv : time_valid s' = time_valid s;
+  rs_tasks : tasks s' = tasks s;
+  rs_cur : cur s' = cur s;
+  rs_quit : quit s' = quit s;
+  rs_method : method s' = method s;
+  rs_clock : clock (kern s') = clock (kern s);
+  rs_flt : flt (kern s') = flt (kern s);
+  rs_mst : mst s' = mst s;
+  rs_user : forall i, inr16 i -> fkeep (fdt s' i) (fdt s i);
+  rs_handled : handled s' = handled s \/ handled s' = None }.
+
+Lemma RawStep_refl : forall s, RawStep s s.
+Proof. intros. constructor; auto. intros; apply fkeep_refl. Qed.
+
+Lemma RawStep_trans : forall a b c, RawStep a b -> RawStep b c -> RawStep a c.
+Proof.
+  intros a b c [A1 A2 A3 A4 A5 A6 A7 A8 A9 A10 A11 A12] [B1 B2 B3 B4 B5 B6 B7 B8 B9 B10 B11 B12].
+  constructor; try congruence.
+  - intros i I. eapply fkeep_trans; [apply B11|apply A11]; assumption.
+  - destruct B12 as [B12|B12]; [rewrite B12; assumption|auto].
+Qed.
+
+Lemma RawStep_is_epoll : forall s s', RawStep s s' -> is_epoll s' = is_epoll s.
+Proof. intros s s' R. unfold is_epoll. rewrite (rs_method _ _ R). reflexivity. Qed.
+
+(* the untracked rest *)
+Record EvSame (s s' : core) : Prop := {
+  es_evp : ev_pending s' = ev_pending s;
+  es_evb : ev_batch s' = ev_batch s;
+  es_evc : ev_count s' = ev_count s;
+  es_evr : ev_reg s' = ev_reg s;
+  es_ur : use_raw s' = use_raw s }.
+
+Lemma EvSame_refl : forall s, EvSame s s. Proof. intros; constructor; reflexivity. Qed.
+Lemma EvSame_trans : forall a b c, EvSame a b -> EvSame b c -> EvSame a c.
+Proof. intros a b c [] []. constructor; congruence. Qed.
+
+Lemma ent_ok_ext : forall s s' x e, ent_ok s x e -> method s' = method s -> flt (kern s') = flt (kern s) ->
+  (forall i, gsame (fdt s' i) (fdt s i)) -> ent_ok s' x e.
+Proof.
+  intros s s' x e [D|[(D & D1 & D2)|(D & D1 & D2)]] M F G.
+  - left; assumption.
+  - right; left. rewrite M, F. auto.
+  - right; right. destruct (G (en_data e)) as (G1 & G2 & G3 & G4). rewrite G2, G3.
+    split; [eapply okk_ext; eassumption|auto].
+Qed.
+
+(* kernel-side step: descriptors untouched, the epoll set only loses entries or gains loop-internal ones *)
+Lemma FdI_kstep : forall s s' x, FdI s x ->
+  active s' = active s -> handled s' = handled s -> notify s' = notify s -> method s' = method s ->
+  pfds s' = pfds s -> pkeys s' = pkeys s -> fdt s' = fdt s -> flt (kern s') = flt (kern s) ->
+  (forall e, In e (ep (kern s')) -> In e (ep (kern s)) \/ (is_epoll s = true /\ en_data e = -1)) ->
+  FdI s' x.
+Proof.
+  intros s s' x I A H N M PF PK FD F E.
+  apply (FdI_ext_ep s s' x I); try congruence.
+  - left. assumption.
+  - intros i. rewrite FD. auto.
+  - intros e He. destruct (E e He) as [He0|[_ D]]; [|left; assumption].
+    apply (ent_ok_ext s s' x e (fi_ep s x I e He0)); try assumption. intros i. rewrite FD. apply gsame_refl.
+  - intros IE. destruct (fi_nopoll s x I IE) as [_ E0].
+    destruct (ep (kern s')) as [|e l] eqn:Q; [reflexivity|].
+    destruct (E e (or_introl eq_refl)) as [He0|[IE1 _]]; [rewrite E0 in He0; destruct He0|congruence].
+Qed.
+
+Lemma do_close_step : forall s x fd, FdI s x ->
+  let s' := do_close s fd in
+  RawStep s s' /\ EvSame s s' /\ FdI s' x /\ fdt s' = fdt s /\ rw_reg s' = rw_reg s /\ handled s' = handled s /\
+  efd_raw s' = efd_raw s /\ rw_rfd s' = rw_rfd s /\ rw_wfd s' = rw_wfd s /\ active_fd s' = active_fd s /\
+  active_ref s' = active_ref s /\ active_wr s' = active_wr s.
+Proof.
+  intros s x fd I s'. unfold s', do_close.
+  destruct (k_close_spec (kern s) fd) as (C & F & E).
+  destruct (k_close (kern s) fd) as [k1 ok]. cbn [fst] in C, F, E.
+  assert (G : forall s1, s1 = set_kern s k1 \/ s1 = emit (set_kern s k1) (TKClose fd) ->
+    RawStep s s1 /\ EvSame s s1 /\ FdI s1 x /\ fdt s1 = fdt s /\ rw_reg s1 = rw_reg s /\ handled s1 = handled s /\
+    efd_raw s1 = efd_raw s /\ rw_rfd s1 = rw_rfd s /\ rw_wfd s1 = rw_wfd s /\ active_fd s1 = active_fd s /\
+    active_ref s1 = active_ref s /\ active_wr s1 = active_wr s).
+  { intros s1 [-> | ->].
+    - split; [constructor; try reflexivity; auto; intros; apply fkeep_refl|].
+      split; [constructor; reflexivity|]. split; [|repeat split].
+      apply (FdI_kstep s _ x I); try reflexivity; auto.
+    - split; [constructor; try reflexivity; auto; [rewrite mst_emit; reflexivity|intros; apply fkeep_refl]|].
+      split; [constructor; reflexivity|]. split; [|repeat split].
+      apply (FdI_kstep s _ x I); try reflexivity; auto. }
+  destruct ok; apply G; auto.
+Qed.
+
+(* only the kernel (not its epoll set) and library-internal scalars change *)
+Record KStep (s s' : core) : Prop := {
+  ks_raw : RawStep s s';
+  ks_ev : EvSame s s';
+  ks_fdt : fdt s' = fdt s;
+  ks_rw : rw_reg s' = rw_reg s;
+  ks_handled : handled s' = handled s;
+  ks_active : active s' = active s;
+  ks_notify : notify s' = notify s;
+  ks_pfds : pfds s' = pfds s;
+  ks_pkeys : pkeys s' = pkeys s;
+  ks_ep : ep (kern s') = ep (kern s) }.
+
+Lemma KStep_refl : forall s, KStep s s.
+Proof. intros. constructor; try reflexivity; [apply RawStep_refl|apply EvSame_refl]. Qed.
+
+Lemma KStep_trans : forall a b c, KStep a b -> KStep b c -> KStep a c.
+Proof.
+  intros a b c [A1 A2 A3 A4 A5 A6 A7 A8 A9 A10] [B1 B2 B3 B4 B5 B6 B7 B8 B9 B10].
+  constructor; try congruence; [eapply RawStep_trans; eassumption|eapply EvSame_trans; eassumption].
+Qed.
+
+Lemma KStep_FdI : forall s s' x, KStep s s' -> FdI s x -> FdI s' x.
+Proof.
+  intros s s' x [A1 A2 A3 A4 A5 A6 A7 A8 A9 A10] I.
+  apply (FdI_keep s s' x I); try assumption; [apply (rs_method _ _ A1)|apply (rs_flt _ _ A1)].
+Qed.
+
+Lemma KStep_FdXa : forall s s', KStep s s' -> FdXa s -> FdXa s'.
+Proof.
+  intros s s' [A1 A2 A3 A4 A5 A6 A7 A8 A9 A10] (X1 & X2 & X3). unfold FdXa. rewrite A3, A4. auto.
+Qed.
+
+Lemma KStep_kern_efd : forall s k1 a b, ksame (kern s) k1 -> KStep s (set_efd (set_kern s k1) a b).
+Proof.
+  intros s k1 a b (C & F & E).
+  constructor; try reflexivity; try assumption.
+  - constructor; try reflexivity; auto. intros; apply fkeep_refl.
+  - constructor; reflexivity.
+Qed.
+
+Lemma KStep_kern : forall s k1, ksame (kern s) k1 -> KStep s (set_kern s k1).
+Proof.
+  intros s k1 (C & F & E).
+  constructor; try reflexivity; try assumption.
+  - constructor; try reflexivity; auto. intros; apply fkeep_refl.
+  - constructor; reflexivity.
+Qed.
+
+Definition RawRegPost (s : core) (j : Z) (rf : res * bool) : Prop :=
+  FdRes s (fst rf) (fun s' => RawStep s s' /\ EvSame s s' /\ FdI s' (-1) /\ FdXa s' /\
+                             rw_reg s' = (if snd rf then rw_reg s else upd (rw_reg s) j true)).
+
+Lemma raw_fail_post : forall s s3 j, KStep s s3 -> FdI s (-1) -> FdXa s -> RawRegPost s j (R s3, true).
+Proof.
+  intros s s3 j K I X. unfold RawRegPost. cbn [fst snd FdRes].
+  split; [apply (ks_raw _ _ K)|]. split; [apply (ks_ev _ _ K)|].
+  split; [eapply KStep_FdI; eassumption|]. split; [eapply KStep_FdXa; eassumption|apply (ks_rw _ _ K)].
+Qed.
+
+Lemma raw_tail_post : forall s s3 j rfd wfd, KStep s s3 -> FdI s (-1) -> FdXa s -> 0 <= j <= 16 ->
+  rw_reg s j = false ->
+  let key := RAW_KEY j in
+  let f := fd_with_handlers (fd_fresh rfd (1000 + j)) (Some (H_RAW j)) None None in
+  RawRegPost s j (bind (fd_register (putfd s3 key f) key)
+                       (fun s => R (set_rw s (upd (rw_reg s) j true) (upd (rw_rfd s) j rfd) (upd (rw_wfd s) j wfd))),
+                  false).
+Proof.
+  intros s s3 j rfd wfd K I X Jr U key f. unfold RawRegPost. cbn [fst snd].
+  pose proof (KStep_FdI _ _ _ K I) as I3. pose proof (KStep_FdXa _ _ K X) as X3.
+  destruct X3 as (X1 & X2 & X3).
+  assert (KR : 0 <= key <= 32) by (unfold key, RAW_KEY; lia).
+  assert (U3 : registered (fdt s3 key) = false).
+  { destruct (registered (fdt s3 key)) eqn:E; [|reflexivity]. unfold key, RAW_KEY in E.
+    apply X1 in E; [|assumption]. rewrite (ks_rw _ _ K) in E. congruence. }
+  pose proof (FdI_noref s3 key I3 ltac:(lia) U3) as NR.
+  set (s4 := putfd s3 key f).
+  assert (I4 : FdI s4 (-1)) by (apply FdI_putfd_noref; assumption).
+  assert (U4 : registered (fdt s4 key) = false) by (unfold s4; rewrite fdt_putfd, Z.eqb_refl; reflexivity).
+  pose proof (fd_register_res s4 key I4 KR U4) as Q.
+  assert (M4 : mst s4 = mst s) by (apply (rs_mst _ _ (ks_raw _ _ K))).
+  destruct (fd_register s4 key) as [s5|s5]; cbn [bind FdRes] in *; [|eapply HaltOf_same; eassumption].
+  destruct Q as (T & R5 & I5).
+  destruct T as [T1 T2 T3 T4 T5].
+  set (s6 := set_rw s5 _ _ _).
+  assert (FD6 : forall y, fdt s6 y = fdt s5 y) by reflexivity.
+  assert (FD4 : forall y, y <> key -> fdt s4 y = fdt s y).
+  { intros y N. unfold s4. rewrite fdt_putfd. destruct (Z.eqb_spec y key); [contradiction|].
+    rewrite (ks_fdt _ _ K). reflexivity. }
+  destruct (ks_raw _ _ K) as [A1 A2 A3 A4 A5 A6 A7 A8 A9 A10 A11 A12].
+  assert (T1' : Same s3 s5) by (eapply Same_trans; [|exact T1]; constructor; reflexivity).
+  clear T1. rename T1' into T1.
+  destruct T1 as [B1 B2 B3 B4 B5 B6 B7 B8 B9 B10 B11 B12 B13 B14 B15 B16].
+  split; [|split; [|split; [|split]]].
+  - constructor; cbn [s6 set_rw heap time time_valid tasks cur quit method kern handled];
+      try congruence.
+    + change (mst s5 = mst s). congruence.
+    + intros y Y. rewrite FD6.
+      assert (N : y <> key) by (unfold key, RAW_KEY, inr16 in *; lia).
+      split; [rewrite <- (FD4 y N); apply T2|]. rewrite T3 by assumption. rewrite FD4 by assumption. reflexivity.
+    + destruct T5 as [T5|T5]; [left; rewrite T5; apply (ks_handled _ _ K)|right; assumption].
+  - destruct (ks_ev _ _ K) as [E1 E2 E3 E4 E5].
+    constructor; cbn [s6 set_rw ev_pending ev_batch ev_count ev_reg use_raw]; congruence.
+  - apply (FdI_keep s5 s6 (-1) I5); reflexivity.
+  - unfold FdXa. cbn [s6 set_rw rw_reg]. split; [|split].
+    + intros j' J' RG. rewrite FD6 in RG. unfold upd. destruct (Z.eqb_spec j' j) as [->|N]; [reflexivity|].
+      assert (NK : 16 + j' <> key) by (unfold key, RAW_KEY; lia).
+      rewrite T3 in RG by assumption. rewrite FD4 in RG by assumption.
+      rewrite B11. rewrite (ks_rw _ _ K). destruct X as (X1' & _). apply X1'; assumption.
+    + intros k Kr. rewrite FD6. destruct (T2 k) as (_ & H1 & H2 & H3 & _). unfold hand_ok. rewrite H1, H2, H3.
+      destruct (Z.eq_dec k key) as [->|N].
+      * unfold s4. rewrite fdt_putfd, Z.eqb_refl. unfold f, key, RAW_KEY, H_RAW.
+        cbn [h_in h_out h_err fd_with_handlers]. repeat split; try discriminate. intros h0 E0. assert (E1 : h0 = 1000 + j) by congruence. lia.
+      * rewrite FD4 by assumption. destruct X as (_ & X2' & _). apply X2'. assumption.
+    + intros k Kr. rewrite FD6. destruct (T2 k) as (_ & H1 & H2 & H3 & _). unfold hand_ok. rewrite H1, H2, H3.
+      assert (N : k <> key) by (unfold key, RAW_KEY; lia).
+      rewrite FD4 by assumption. destruct X as (_ & _ & X3'). apply X3'. assumption.
+  - cbn [s6 set_rw rw_reg]. rewrite B11. rewrite (ks_rw _ _ K). reflexivity.
+Qed.
+
+Lemma raw_register_spec : forall s j, FdI s (-1) -> FdXa s -> 0 <= j <= 16 -> rw_reg s j = false ->
+  RawRegPost s j (raw_register s j).
+Proof.
+  intros s j I X Jr U. unfold raw_register.
+  (* first attempt: eventfd *)
+  assert (A : exists s2 got fl,
+     (if negb (efd_raw s =? 0)
+      then match eventfd_grab (kern s) (efd_raw s) with
+           | (k1, inl fd, u) => (set_efd (set_kern s k1) (efd_epoll s) u, Some (fd, fd), false)
+           | (k1, inr e, u) => (set_efd (set_kern s k1) (efd_epoll s) u, None, negb (is_enosys e))
+           end
+      else (s, None, false)) = (s2, got, fl) /\ KStep s s2).
+  { destruct (negb (efd_raw s =? 0)); [|exists s, None, false; split; [reflexivity|apply KStep_refl]].
+    pose proof (ksame_grab (kern s) (efd_raw s)) as KS.
+    destruct (eventfd_grab (kern s) (efd_raw s)) as [[k1 [fd|e]] u]; cbn [fst] in KS.
+    - eexists _, _, _. split; [reflexivity|apply KStep_kern_efd; assumption].
+    - eexists _, _, _. split; [reflexivity|apply KStep_kern_efd; assumption]. }
+  destruct A as (s2 & got & fl & -> & K2).
+  destruct fl; [apply raw_fail_post; assumption|].
+  (* second attempt: a pipe *)
+  assert (B : exists s3 got3 fl3,
+     match got with
+     | Some p => (s2, Some p, false)
+     | None => if efd_raw s2 =? 0
+               then match k_pipe (kern s2) with
+                    | (k1, Some (r, w)) => (set_kern s2 k1, Some (r, w), false)
+                    | (k1, None) => (set_kern s2 k1, None, true)
+                    end
+               else (s2, None, true)
+     end = (s3, got3, fl3) /\ KStep s s3).
+  { destruct got as [p|]; [exists s2, (Some p), false; split; [reflexivity|assumption]|].
+    destruct (efd_raw s2 =? 0); [|exists s2, None, true; split; [reflexivity|assumption]].
+    pose proof (ksame_pipe (kern s2)) as KS.
+    destruct (k_pipe (kern s2)) as [k1 [[r w]|]]; cbn [fst] in KS.
+    - eexists _, _, _. split; [reflexivity|]. eapply KStep_trans; [eassumption|apply KStep_kern; assumption].
+    - eexists _, _, _. split; [reflexivity|]. eapply KStep_trans; [eassumption|apply KStep_kern; assumption]. }
+  destruct B as (s3 & got3 & fl3 & -> & K3).
+  destruct got3 as [[rfd wfd]|]; [|apply raw_fail_post; assumption].
+  apply raw_tail_post; assumption.
+Qed.
+
+Lemma raw_unregister_spec : forall s j, FdI s (-1) -> FdXa s -> 0 <= j <= 16 ->
+  FdRes s (raw_unregister s j) (fun s' => RawStep s s' /\ EvSame s s' /\ FdI s' (-1) /\ FdXa s' /\
+                                          rw_reg s' = upd (rw_reg s) j false).
+Proof.
+  intros s j I X Jr. unfold raw_unregister.
+  set (key := RAW_KEY j). assert (KR : 0 <= key <= 32) by (unfold key, RAW_KEY; lia).
+  pose proof (fd_unregister_res s key I KR) as Q.
+  destruct (fd_unregister s key) as [s1|s1]; cbn [bind FdRes] in *; [|assumption].
+  destruct Q as (T & U1 & I1 & C1). destruct T as [T1 T2 T3 T4 T5].
+  destruct (do_close_step s1 (-1) (rw_rfd s1 j) I1) as (R2 & E2 & I2 & F2 & W2 & H2 & EF2 & RF2 & WF2 & _).
+  set (s2 := do_close s1 (rw_rfd s1 j)) in *.
+  assert (G3 : exists s3, (if efd_raw s2 =? 0 then do_close s2 (rw_wfd s2 j) else s2) = s3 /\
+               RawStep s2 s3 /\ EvSame s2 s3 /\ FdI s3 (-1) /\ fdt s3 = fdt s2 /\ rw_reg s3 = rw_reg s2 /\
+               handled s3 = handled s2).
+  { destruct (efd_raw s2 =? 0).
+    - destruct (do_close_step s2 (-1) (rw_wfd s2 j) I2) as (R3 & E3 & I3 & F3 & W3 & H3 & _).
+      eexists. split; [reflexivity|].
+      split; [exact R3|split; [exact E3|split; [exact I3|split; [exact F3|split; [exact W3|exact H3]]]]].
+    - exists s2. split; [reflexivity|]. split; [apply RawStep_refl|]. split; [apply EvSame_refl|]. auto. }
+  destruct G3 as (s3 & -> & R3 & E3 & I3 & F3 & W3 & H3).
+  set (s4 := set_rw s3 _ _ _).
+  assert (FD4 : forall y, fdt s4 y = fdt s1 y) by (intros y; change (fdt s3 y = fdt s1 y); rewrite F3, F2; reflexivity).
+  assert (R01 : RawStep s s1).
+  { destruct T1 as [B1 B2 B3 B4 B5 B6 B7 B8 B9 B10 B11 B12 B13 B14 B15 B16].
+    constructor; try assumption. intros y Y. split; [apply T2|]. apply T3. unfold key, RAW_KEY, inr16 in *. lia. }
+  assert (R34 : RawStep s3 s4) by (constructor; try reflexivity; auto; intros; apply fkeep_refl).
+  split; [eapply RawStep_trans; [eapply RawStep_trans; [eapply RawStep_trans; [exact R01|exact R2]|exact R3]|exact R34]|].
+  split.
+  { destruct T1 as [B1 B2 B3 B4 B5 B6 B7 B8 B9 B10 B11 B12 B13 B14 B15 B16].
+    destruct E2 as [E21 E22 E23 E24 E25]. destruct E3 as [E31 E32 E33 E34 E35].
+    constructor; cbn [s4 set_rw ev_pending ev_batch ev_count ev_reg use_raw]; congruence. }
+  split; [apply (FdI_keep s3 s4 (-1) I3); reflexivity|].
+  destruct X as (X1 & X2 & X3).
+  assert (RW4 : rw_reg s4 = upd (rw_reg s) j false).
+  { cbn [s4 set_rw rw_reg]. rewrite W3, W2. rewrite (sm_rw _ _ T1). reflexivity. }
+  split; [|exact RW4].
+  unfold FdXa. rewrite RW4. split; [|split].
+  - intros j' J' RG. rewrite FD4 in RG. unfold upd. destruct (Z.eqb_spec j' j) as [->|N].
+    + fold (RAW_KEY j) in RG. fold key in RG. congruence.
+    + rewrite T3 in RG by (unfold key, RAW_KEY; lia). apply X1; assumption.
+  - intros k Kr. rewrite FD4. destruct (T2 k) as (_ & H1' & H2' & H3' & _). unfold hand_ok. rewrite H1', H2', H3'. apply X2. assumption.
+  - intros k Kr. rewrite FD4. destruct (T2 k) as (_ & H1' & H2' & H3' & _). unfold hand_ok. rewrite H1', H2', H3'. apply X3. assumption.
+Qed.
